@@ -4,17 +4,18 @@ func buildProperties() []Property {
 	return []Property{
 		{
 			ID: "C17", Title: "DCG translation preserves the language and the threading of the remainder",
-			Decides:    "a necessary condition of 'leaves exactly the unconsumed remainder': in every entry of the construct table and in the non-terminal/terminal helpers the remainder is reachable from the input list over the hidden-argument pairs handed to sub-translations and constructed goals, every fresh difference-list variable is fed by that threading, and the rule translator connects head and body through its fresh variables. This is the thinnest claim of the set.",
+			Decides:    "a necessary condition of 'leaves exactly the unconsumed remainder': in every entry of the construct table and in the non-terminal/terminal helpers the remainder is reachable from the input list over the hidden-argument pairs handed to sub-translations and constructed goals, every fresh difference-list variable is fed by that threading, and the rule translator connects head and body through its fresh variables. This is the thinnest claim of the set. The left operand of a generated conjunction never ends at the caller's remainder (steadfastness).",
 			NotDecided: "language preservation, argument bindings, cut and negation semantics inside bodies.",
 			Rules: []RuleDef{
 				{"R-RESOLVE-ALL", 3, ruleResolveAll("C17")},
 				{"R-DCG-THREAD", 14, ruleDCGThread},
+				{"R-DCG-STEADFAST", 4, ruleDCGSteadfast},
 				{"R-DCG-LOOKAHEAD", 1, ruleDCGLookahead},
 			},
 		},
 		{
 			ID: "C06", Title: "Text written by writeq/write_canonical reads back as the same term",
-			Decides:    "agreement of the writer's and the reader's tables and exactness of the number paths: every escape the writer can emit is accepted by the lexer class, matched by the reader's pattern and mapped back to the same character; quote, backslash and control characters always trigger escaping; floats are written with the shortest round-tripping representation and read by one correctly rounding conversion; write_term/3 and read_term/3 use the VM's one operator table.",
+			Decides:    "agreement of the writer's and the reader's tables and exactness of the number paths: every escape the writer can emit is accepted by the lexer class, matched by the reader's pattern and mapped back to the same character; quote, backslash and control characters always trigger escaping; floats are written with the shortest round-tripping representation and read by one correctly rounding conversion; write_term/3 and read_term/3 use the VM's one operator table. The write options are extended copy-on-write: a map reached through an options struct received by value is never updated in place.",
 			NotDecided: "bracketing/spacing correctness for operator contexts - the heart of the round trip - which depends on pairs (context operator, operand) over all tables.",
 			Rules: []RuleDef{
 				{"R-MAP-COW", 4, ruleMapCOW},
@@ -26,7 +27,7 @@ func buildProperties() []Property {
 		},
 		{
 			ID: "C16", Title: "Relational built-ins enumerate exactly their relation in every call mode",
-			Decides:    "the clause 'text measured in characters, not bytes': in the atom-processing builtins (resolved from the registration calls) a string obtained from an atom is measured and indexed only through []rune or range offsets; its byte length feeds only capacities and zero tests; it is sliced only at offsets produced by ranging over the same string.",
+			Decides:    "the clause 'text measured in characters, not bytes': in the atom-processing builtins (resolved from the registration calls) a string obtained from an atom is measured and indexed only through []rune or range offsets; its byte length feeds only capacities and zero tests; it is sliced only at offsets produced by ranging over the same string. Every built-in inspects the dynamic type of an argument only after resolving it (mode discrimination is made on the resolved term); no cutset-taking strings function is given computed text.",
 			NotDecided: "completeness and exactly-once enumeration in every mode - behavioural.",
 			Rules: []RuleDef{
 				{"R-TRIM-CUTSET", 1, ruleTrimCutset},
@@ -37,7 +38,7 @@ func buildProperties() []Property {
 		},
 		{
 			ID: "C19", Title: "A stream is one forward cursor: peeks do not consume, nothing skipped/repeated",
-			Decides:    "the cursor bookkeeping (buffer, position, end-of-stream, last rune size) is touched only by the stream's own methods; each method that moves the underlying reader/writer moves `position` in the same direction by the amount transferred, on the success edge; peek_char/peek_byte install the matching un-read on every path after their read and get_* never un-read; read_term/3 un-reads exactly once on the stream its parser was built on.",
+			Decides:    "the cursor bookkeeping (buffer, position, end-of-stream, last rune size) is touched only by the stream's own methods; each method that moves the underlying reader/writer moves `position` in the same direction by the amount transferred, on the success edge; peek_char/peek_byte install the matching un-read on every path after their read and get_* never un-read; read_term/3 un-reads exactly once on the stream its parser was built on. Byte-unit operations on the underlying reader run only under streamType == binary and rune-unit operations only under text.",
 			NotDecided: "that mixed operation sequences deliver consecutive data, the end-of-stream state machine, that one un-read is enough after read_term (would need the ring's contents, not its depth).",
 			Rules: []RuleDef{
 				{"R-STREAM-OWNER", 8, ruleStreamOwner},
@@ -50,7 +51,7 @@ func buildProperties() []Property {
 		},
 		{
 			ID: "C08", Title: "Standard order is total and representation-independent; sorts obey it",
-			Decides:    "for every ordered pair of concrete term representations the Compare method, partially evaluated under 'the resolved argument has that dynamic type', returns exactly the constant the documented class order dictates, antisymmetrically (cross-class totality and antisymmetry; transitivity follows from a consistent rank); same-class pairs reach a value comparison; keysort/2 uses a stable sort; sort/2 and setof/3 share one set constructor that orders and deduplicates with Term.Compare.",
+			Decides:    "for every ordered pair of concrete term representations the Compare method, partially evaluated under 'the resolved argument has that dynamic type', returns exactly the constant the documented class order dictates, antisymmetrically (cross-class totality and antisymmetry; transitivity follows from a consistent rank); same-class pairs reach a value comparison; keysort/2 uses a stable sort; sort/2 and setof/3 share one set constructor that orders and deduplicates with Term.Compare. While a consumer tests a Compare result against -1 or 1, every member of the Compare family returns only -1, 0, 1 or another member's result; comparison inspects terms only after resolution.",
 			NotDecided: "ordering within a class (atoms by text, compounds by arity/name/args, numeric values), and that different encodings of the same list compare equal.",
 			Rules: []RuleDef{
 				{"R-RESOLVE-ALL", 9, ruleResolveAll("C08")},
@@ -90,9 +91,10 @@ func buildProperties() []Property {
 		},
 		{
 			ID: "C15", Title: "Go values cross the API as data: placeholders = literals, Scan exact or error",
-			Decides:    "every narrowing conversion of an answer value in Scan is guarded by an exactness/range test with an error edge (sizes from the analysed build, thorough tier repeats with 32-bit int); placeholder arguments never flow into a reader, lexer or parser constructor (they enter the grammar only as finished terms); a term is returned only when the argument queue is empty and the queue is indexed only when non-empty.",
+			Decides:    "every narrowing conversion of an answer value in Scan is guarded by an exactness/range test with an error edge (sizes from the analysed build, thorough tier repeats with 32-bit int); placeholder arguments never flow into a reader, lexer or parser constructor (they enter the grammar only as finished terms); a term is returned only when the argument queue is empty and the queue is indexed only when non-empty. The destination of each element conversion into a slice is computed per element inside the loop.",
 			NotDecided: "that termOf(v) equals the literal denoting v under every double_quotes setting.",
 			Rules: []RuleDef{
+				{"R-SCAN-FRESH-DEST", 1, ruleScanFreshDest},
 				{"R-NARROWING", 6, ruleNarrowing},
 				{"R-PLACEHOLDER-TAINT", 2, rulePlaceholderTaint},
 				{"R-ARGS-CONSUMED", 2, ruleArgsConsumed},
@@ -112,9 +114,10 @@ func buildProperties() []Property {
 		},
 		{
 			ID: "C10", Title: "A stored clause is the clause that was given, and it executes as that clause",
-			Decides:    "the term kept for clause/2 and retract/1 is a closed copy (bindings applied) on every compile path; the operand types the compiler emits are the types the interpreter asserts; every emitted structure opcode is closed by exactly one pop; head and body argument compilers treat each term representation with opcodes of the same kind; unchecked assertions on struct fields hold for every value stored there; every opcode has a handler; copies keep variable sharing.",
+			Decides:    "the term kept for clause/2 and retract/1 is a closed copy (bindings applied) on every compile path; the operand types the compiler emits are the types the interpreter asserts; every emitted structure opcode is closed by exactly one pop; head and body argument compilers treat each term representation with opcodes of the same kind; unchecked assertions on struct fields hold for every value stored there; every opcode has a handler; copies keep variable sharing. The compiler and the database built-ins inspect a term's shape only after resolution and pair functor-name tests with arity.",
 			NotDecided: "that the bytecode denotes the source term (argument order, variable numbering) for every clause - a translation-validation question.",
 			Rules: []RuleDef{
+				{"R-FUNCTOR-ARITY", 35, ruleFunctorArity},
 				{"R-RESOLVE-ALL", 25, ruleResolveAll("C10")},
 				{"R-RAW-CLOSED", 2, ruleRawClosed},
 				{"R-CLAUSE-BUILD", 2, ruleClauseBuild},
@@ -128,31 +131,34 @@ func buildProperties() []Property {
 		},
 		{
 			ID: "C18", Title: "The operator table evolves as op/3 defines; failed updates change nothing",
-			Decides:    "op/3 validates everything before it mutates anything (no error exit is reachable after a mutation); the operator table is written only from code reachable from op/3 and the parser/VM initialisers; write_term/3 and every term-reading parser use the VM's one table.",
+			Decides:    "op/3 validates everything before it mutates anything (no error exit is reachable after a mutation); the operator table is written only from code reachable from op/3 and the parser/VM initialisers; write_term/3 and every term-reading parser use the VM's one table. Every iteration of the commit loop of op/3 reaches define (a skip is allowed only across a whole-operator comparison); op/3 inspects its arguments after resolution.",
 			NotDecided: "that current_op/3 enumerates exactly the ISO table after every history (class exclusion, priority-0 removal are value-level).",
 			Rules: []RuleDef{
 				{"R-RESOLVE-ALL", 8, ruleResolveAll("C18")},
 				{"R-OP-ATOMIC", 2, ruleOpAtomic},
+				{"R-OP-DEFINES-ALL", 1, ruleOpDefinesAll},
 				{"R-OPS-WRITERS", 2, ruleOpsWriters},
 				{"R-OPS-SOURCE", 4, ruleOpsSource},
 			},
 		},
 		{
 			ID: "C20", Title: "Loading defines clauses in source order; a failed load defines nothing",
-			Decides:    "every write of the loader to the live database is dominated by the success edges of both staging steps and the commit loop has no early return; nothing statically reachable from the staging steps (short of a nested load) writes the live database.",
+			Decides:    "every write of the loader to the live database is dominated by the success edges of both staging steps and the commit loop has no early return; nothing statically reachable from the staging steps (short of a nested load) writes the live database. Every iteration of the commit loop writes the predicate to the database; ensure_loaded/1 un-marks the file on every error exit.",
 			NotDecided: "source order, multifile/discontiguous semantics, effects of directives executed during a load that later fails (by design they run at once).",
 			Rules: []RuleDef{
 				{"R-COMMIT-AFTER-SUCCESS", 3, ruleCommitAfterSuccess},
 				{"R-STAGING-LOCAL", 1, ruleStagingLocal},
+				{"R-COMMIT-ALL", 1, ruleCommitAll},
 				{"R-MARK-ROLLBACK", 1, ruleMarkRollback},
 				{"R-SLICE-OWNER", 4, ruleSliceOwner},
 			},
 		},
 		{
 			ID: "C01", Title: "Answers are those of depth-first, left-to-right SLD resolution, in order",
-			Decides:    "each clause activation runs on a persistent environment (no binding leaks between activations, sibling branches or successive answers: every Env store targets a private node); the interpreter threads its variable frame, continuation and cut barrier unchanged through its own re-entries; every opcode has a handler.",
+			Decides:    "each clause activation runs on a persistent environment (no binding leaks between activations, sibling branches or successive answers: every Env store targets a private node); the interpreter threads its variable frame, continuation and cut barrier unchanged through its own re-entries; every opcode has a handler. A functor-name comparison is always paired with an examination of the same value's arity.",
 			NotDecided: "that the answer sequence equals the reference SLD sequence (clause order, goal order, completeness, termination reporting) - a statement about the dynamic shape of the promise stack for every program.",
 			Rules: []RuleDef{
+				{"R-FUNCTOR-ARITY", 35, ruleFunctorArity},
 				{"R-ENV-IMMUT", 9, ruleEnvImmut},
 				{"R-PARAM-THREAD", 5, ruleParamThread(threadRowsFor("exec"))},
 				{"R-ENUM-TOTAL", 15, ruleEnumTotal},
@@ -164,9 +170,10 @@ func buildProperties() []Property {
 		},
 		{
 			ID: "C03", Title: "Cut removes exactly the clause-level choice points; call/N makes it local",
-			Decides:    "cut-barrier discipline: the barrier field is written only at construction and cleared only by the trampoline; a cut is tagged with the activation's own barrier; each clause alternative gets the promise holding this call's alternatives as barrier; no *Promise can travel into a callee (procedure interface, Cont, VM fields), so every goal entered through call/N, \\+, findall, catch gets a fresh barrier.",
+			Decides:    "cut-barrier discipline: the barrier field is written only at construction and cleared only by the trampoline; a cut is tagged with the activation's own barrier; each clause alternative gets the promise holding this call's alternatives as barrier; no *Promise can travel into a callee (procedure interface, Cont, VM fields), so every goal entered through call/N, \\+, findall, catch gets a fresh barrier. Control constructs inspect the shape of a goal only after resolving it and their closures write no captured Go variable (no state that backtracking cannot restore).",
 			NotDecided: "that popUntil prunes exactly the right frames for every dynamic stack; the derived semantics of ->, once, \\+ in bootstrap.pl.",
 			Rules: []RuleDef{
+				{"R-CONTROL-STATELESS", 12, ruleControlStateless},
 				{"R-RESOLVE-ALL", 10, ruleResolveAll("C03")},
 				{"R-CUT-WRITERS", 4, ruleCutWriters},
 				{"R-CUT-PARENT", 1, ruleCutParent},
@@ -178,9 +185,10 @@ func buildProperties() []Property {
 		},
 		{
 			ID: "C04", Title: "throw/1 unwinds to the innermost still-executing catch/3, undoing bindings",
-			Decides:    "the ball is instantiated and copied at throw time (throw/1 raises only Exceptions whose term is renamedCopy(ball, env) of its own arguments); the catcher is unified and Recovery called under the environment catch/3 was called with, so all later bindings are undone (with R-ENV-IMMUT); variable sharing inside the ball is kept.",
+			Decides:    "the ball is instantiated and copied at throw time (throw/1 raises only Exceptions whose term is renamedCopy(ball, env) of its own arguments); the catcher is unified and Recovery called under the environment catch/3 was called with, so all later bindings are undone (with R-ENV-IMMUT); variable sharing inside the ball is kept. The closures of catch/3 and throw/1 write no captured Go variable.",
 			NotDecided: "which catch frame is selected - in particular that a catch/3 whose Goal has exited no longer intercepts (observation O1: it does on this tree; a property of the runtime promise stack).",
 			Rules: []RuleDef{
+				{"R-CONTROL-STATELESS", 12, ruleControlStateless},
 				{"R-BALL-COPY", 6, ruleBallCopy},
 				{"R-CATCH-ENV", 3, ruleCatchEnv},
 				{"R-RECOVER-WRITERS", 1, ruleRecoverWriters},
@@ -190,7 +198,7 @@ func buildProperties() []Property {
 		},
 		{
 			ID: "C11", Title: "findall/bagof/setof collect exactly the solutions, as copies, grouped by witness",
-			Decides:    "every collected instance is a renamed copy of the template taken under that solution's environment; after the nested search findall/3 and \\+/1 continue with their own outer environment (no goal binding is left behind, with R-ENV-IMMUT); copies keep variable sharing.",
+			Decides:    "every collected instance is a renamed copy of the template taken under that solution's environment; after the nested search findall/3 and \\+/1 continue with their own outer environment (no goal binding is left behind, with R-ENV-IMMUT); copies keep variable sharing. The whole collection machinery inspects terms only after resolution.",
 			NotDecided: "free-variable computation, witness variance, partition into groups, solution order.",
 			Rules: []RuleDef{
 				{"R-RESOLVE-ALL", 18, ruleResolveAll("C11")},
@@ -203,7 +211,7 @@ func buildProperties() []Property {
 		},
 		{
 			ID: "C13", Title: "Cancelling the context stops any execution promptly; interpreter stays usable",
-			Decides:    "every nested trampoline runs under the caller's context (no fresh Background context around a goal, no captured context inside a thunk); every cycle of the trampoline passes through a non-blocking poll of ctx.Done() and cancellation is returned as ctx.Err().",
+			Decides:    "every nested trampoline runs under the caller's context (no fresh Background context around a goal, no captured context inside a thunk); every cycle of the trampoline passes through a non-blocking poll of ctx.Done() and cancellation is returned as ctx.Err(). ensure_loaded/1 un-marks the file on every error exit after marking it (a cancelled load can be repeated).",
 			NotDecided: "the delay bound (Go-level loops between polls are bounded by term size, not by a constant), and that the interpreter stays usable afterwards.",
 			Rules: []RuleDef{
 				{"R-FORCE-CTX", 8, ruleForceCtx},
@@ -213,20 +221,22 @@ func buildProperties() []Property {
 		},
 		{
 			ID: "C02", Title: "Unification yields a most general unifier, whatever the term representation",
-			Decides:    "a failed unification leaves no binding (environments are persistent: every Env store targets a node private to the writer); unify_with_occurs_check applies the check at every depth and before every bind; atomic terms are compared with a total non-panicking equality; every slice/string encoding of a list reports './2 through the Compound interface.",
+			Decides:    "a failed unification leaves no binding (environments are persistent: every Env store targets a node private to the writer); unify_with_occurs_check applies the check at every depth and before every bind; atomic terms are compared with a total non-panicking equality; every slice/string encoding of a list reports './2 through the Compound interface. The occurs check recurses into the referent of a bound variable and into every argument; the dynamic type of a term is inspected only after resolution; functor-name comparisons are paired with arity.",
 			NotDecided: "most-generality, symmetry, idempotence, and that Arg(n) of the four list encodings denotes the same abstract argument (algebraic laws over all term pairs).",
 			Rules: []RuleDef{
+				{"R-FUNCTOR-ARITY", 35, ruleFunctorArity},
 				{"R-RESOLVE-ALL", 24, ruleResolveAll("C02")},
 				{"R-ENV-IMMUT", 9, ruleEnvImmut},
 				{"R-PARAM-THREAD", 5, ruleParamThread(threadRowsFor("unify", "contains"))},
 				{"R-OCCURS-SITE", 2, ruleOccursSite},
+				{"R-OCCURS-DEEP", 2, ruleOccursDeep},
 				{"R-IFACE-EQ", 10, ruleIfaceEq},
 				{"R-COMPOUND-UNIFORM", 7, ruleCompoundUniform},
 			},
 		},
 		{
 			ID: "C07", Title: "Arithmetic is exact or raises an evaluation error; comparisons are numeric",
-			Decides:    "integer evaluables never route through float64; full-range + - * neg are paired with an int_overflow branch; / % divisors and shift counts are guarded; float->integer conversions are range-guarded with the actual constants; the 2x2 type dispatch of the six comparison predicates and of the mixed-mode arithmetic computes the operator the ISO name prescribes.",
+			Decides:    "integer evaluables never route through float64; full-range + - * neg are paired with an int_overflow branch; / % divisors and shift counts are guarded; float->integer conversions are range-guarded with the actual constants; the 2x2 type dispatch of the six comparison predicates and of the mixed-mode arithmetic computes the operator the ISO name prescribes. Arithmetic inspects operand types only after resolution.",
 			NotDecided: "value correctness of guards that are present but wrong (the sign error in mulF/divF, O2), IEEE results of the float functions, deeper expression trees.",
 			Rules: []RuleDef{
 				{"R-RESOLVE-ALL", 6, ruleResolveAll("C07")},
@@ -241,7 +251,7 @@ func buildProperties() []Property {
 		},
 		{
 			ID: "C05", Title: "No input crashes or wedges the host; every failure is a Prolog error term",
-			Decides:    "panic classes visible in code shape (zero divisor, negative shift, uncomparable interface comparison, missing table row)",
+			Decides:    "panic classes visible in code shape (zero divisor, negative shift, uncomparable interface comparison, missing table row) Every computed index into a fixed-size array is proven in range (enumeration, range loop, branch facts, or ring cursor by interval interpretation).",
 			NotDecided: "termination on arbitrary text, slice bounds in general, memory exhaustion",
 			Rules: []RuleDef{
 				{"R-ARRAY-INDEX", 20, ruleArrayIndex},
